@@ -180,10 +180,50 @@ fn any_str_le3() -> ([u8; 3], usize) {
     (b, n)
 }
 
+/// The inline representation built field by field, so that the variant tags stay *constants* for
+/// CBMC (going through `SmartString::new` merges the Small/Large arms on the symbolic length, the
+/// niche-encoded tag of `ValueInner` becomes symbolic and every arm of every `match &self.inner`
+/// is explored).  `smartstring_new_le3` proves that `SmartString::new` builds exactly this.
 fn mk_string(b: &[u8; 3], n: usize, safe: bool) -> Value {
+    let mut data = [0u8; 21];
+    if n > 0 {
+        data[0] = b[0];
+    }
+    if n > 1 {
+        data[1] = b[1];
+    }
+    if n > 2 {
+        data[2] = b[2];
+    }
+    let kind = if safe { StringKind::Safe } else { StringKind::Normal };
+    Value { inner: ValueInner::String(SmartString::Small { len: n as u8, kind, data }) }
+}
+
+#[kani::proof]
+#[kani::unwind(23)]
+fn smartstring_new_le3() {
+    let (b, n) = any_str_le3();
+    let safe: bool = kani::any();
     // SAFETY: valid_utf8_le3 was assumed
     let s = unsafe { std::str::from_utf8_unchecked(&b[..n]) };
-    if safe { Value::safe_string(s) } else { Value::normal_string(s) }
+    let got = if safe { Value::safe_string(s) } else { Value::normal_string(s) };
+    let want = mk_string(&b, n, safe);
+    match (&got.inner, &want.inner) {
+        (
+            ValueInner::String(SmartString::Small { len, kind, data }),
+            ValueInner::String(SmartString::Small { len: l2, kind: k2, data: d2 }),
+        ) => {
+            assert!(len == l2 && kind == k2);
+            let i: usize = kani::any();
+            kani::assume(i < 21);
+            assert!(data[i] == d2[i]);
+        }
+        _ => {
+            assert!(false);
+        }
+    }
+    std::mem::forget(got);
+    std::mem::forget(want);
 }
 
 fn str_bytes_eq(v: &Value, want: &[u8]) -> bool {
